@@ -1,7 +1,7 @@
 (* C01 — Two endpoints built on the library interoperate, even across transport loss.
    Statements only.  Nothing else may be added to this file. *)
 From MQ Require Import Base.Prelude Alloc.Alloc Alloc.AllocProofs Framing.Framing Framing.FramingProofs Conn.Types Conn.ConnRecord Conn.Step
-                       Corr.ConnTrace Conn.Scope Conn.Session Conn.IdsQuota Conn.Own Conn.OwnFrame Conn.OwnStep Conn.Run Conn.PairQos Conn.PairQos0 Conn.PairQos5 Conn.PairSeq Conn.PairSeq5 Conn.PairConc Conn.PairBi Conn.PairConc5 Conn.PairBi5 Conn.PairHandshake5 Conn.PairHandshake311 Conn.PairConcIds Conn.PairConcIds5 Conn.PairBiIds Conn.PairBiIds5 Conn.PairQuiescence Conn.PairManual Conn.PairManual5 Conn.PairManualSeq Conn.PairManualSeq5 Conn.PairHandshakeSeq Conn.SessInv Conn.PairLoss Conn.PairLossAcc Conn.PairLossS Conn.PairHandshakeP Conn.PairLossIds Conn.PairLossSIds Conn.PairSeqMixed Conn.PairSeqMixedFresh Conn.PairSeqMixed2.
+                       Corr.ConnTrace Conn.Scope Conn.Session Conn.IdsQuota Conn.Own Conn.OwnFrame Conn.OwnStep Conn.Run Conn.PairQos Conn.PairQos0 Conn.PairQos5 Conn.PairSeq Conn.PairSeq5 Conn.PairConc Conn.PairBi Conn.PairConc5 Conn.PairBi5 Conn.PairHandshake5 Conn.PairHandshake311 Conn.PairConcIds Conn.PairConcIds5 Conn.PairBiIds Conn.PairBiIds5 Conn.PairQuiescence Conn.PairManual Conn.PairManual5 Conn.PairManualSeq Conn.PairManualSeq5 Conn.PairHandshakeSeq Conn.SessInv Conn.PairLoss Conn.PairLossAcc Conn.PairLossS Conn.PairHandshakeP Conn.PairLossIds Conn.PairLossSIds Conn.PairSeqMixed Conn.PairSeqMixedFresh Conn.PairSeqMixed2 Conn.PairSeqMixed5.
 
 (* what the pair property rests on, each proved for ALL states of one endpoint:
    (i) delivery in any fragmentation is the same byte stream (C09) *)
@@ -243,6 +243,27 @@ Theorem C01_pair_sequence_exactly_once_v5 : forall gs gr ps cs cr,
   end.
 Proof. exact run_seq5_ok. Qed.
 Print Assumptions C01_pair_sequence_exactly_once_v5.
+
+(* ... and v5.0 sequences with QoS 0 publications anywhere (Conn/PairSeqMixed5.v): a QoS 0 publication registers no
+   identifier and takes no Receive Maximum slot on either side; its only precondition is the peer's Maximum Packet Size *)
+Theorem C01_pair_mixed_sequence_exactly_once_v5 : forall gs gr ps cs cr,
+  pair_inv5 gs gr cs cr -> Forall v5_any ps ->
+  match run_mixed5 gs gr cs cr ps with
+  | Done cs' cr' d => d = ps /\ pair_inv5 gs gr cs' cr'
+  | AppPre => True
+  | Fail => False
+  end.
+Proof. exact run_mixed5_ok. Qed.
+Print Assumptions C01_pair_mixed_sequence_exactly_once_v5.
+
+Theorem C01_pair_qos0_step_v5 : forall gs gr cs cr p, pair_inv5 gs gr cs cr -> v5_pub p 0 ->
+  match exchange0_5 gs gr cs cr p with
+  | Done cs' cr' d => d = [p] /\ pair_inv5 gs gr cs' cr' /\ F8 cs' cs /\ F8 cr' cr /\ c_qos2 cr' = c_qos2 cr /\ c_qos2 cs' = c_qos2 cs
+  | AppPre => size_ok cs p = false
+  | Fail => False
+  end.
+Proof. exact exchange0_5_ok. Qed.
+Print Assumptions C01_pair_qos0_step_v5.
 
 (* SEVERAL EXCHANGES IN FLIGHT (v3.1.1, automatic responses, intact FIFO links): the system is two endpoints and two
    queues; an action is "the application publishes a QoS 1/2 message" (skipped when its own precondition fails: identifier
@@ -1294,6 +1315,28 @@ Example C01_two_way_mixed_sequence_nonvacuous :
       | Done2 a' b' dB dA => dB = [p0 2; pb 1 2 3; pb 1 1 1; p0 1] /\ dA = [pb 1 2 0; p0 0; pb 1 1 4] /\
                              c_qos2 a' = [] /\ c_qos2 b' = [] /\ c_store a' = [] /\ c_store b' = [] /\
                              a_pool (c_pid a') = [(1, 65535)] /\ a_pool (c_pid b') = [(1, 65535)]
+      | _ => False
+      end
+  | _, _ => False
+  end.
+Proof. vm_compute. repeat split; reflexivity. Qed.
+
+(* ... and the v5.0 mixed sequence: QoS 0 between acknowledged exchanges, Receive Maximum 2 / 3 negotiated *)
+Example C01_pair_mixed_sequence_v5_nonvacuous :
+  let gs := mkCfg RClient 65535 2 in
+  let gr := mkCfg RServer 65535 2 in
+  let cn := mkPkt 1 V50 0 0 false false [] None 0 0 24 false 0 true 0 None (Some 3) (Some 100) None None in
+  let ca := mkPkt 2 V50 0 0 false false [] None 0 0 11 true 0 false 0 None (Some 2) (Some 50) None None in
+  let ops_s := [OSetAutoPub true; OSend cn; ORecv [32;9;0;0;6;33;0;2;39;0;0;0;50] (PROk ca)] in
+  let ops_r := [OSetAutoPub true; ORecv [16;13;0;4;77;81;84;84;5;2;0;0;0;0;0] (PROk cn); OSend ca] in
+  let pb := fun id q pay => mkPkt 3 V50 id q false false [116] None pay 0 (8 + pay) false 0 false 0 None None None None None in
+  let p0 := fun pay => mkPkt 3 V50 0 0 false false [116] None pay 0 (6 + pay) false 0 false 0 None None None None None in
+  let ps := [p0 2; pb 1 1 0; p0 0; pb 1 2 3; p0 4; pb 1 2 1] in
+  match run_state gs (conn_new gs V50) ops_s, run_state gr (conn_new gr V50) ops_r with
+  | Some cs, Some cr =>
+      match run_mixed5 gs gr cs cr ps with
+      | Done cs' cr' d => d = ps /\ c_qos2 cr' = [] /\ c_store cs' = [] /\ a_pool (c_pid cs') = [(1, 65535)] /\
+                          c_send_count cs' = 0 /\ c_publish_recv cr' = []
       | _ => False
       end
   | _, _ => False
